@@ -58,6 +58,14 @@ checks.update({
    text="Histories (library and HTTP handlers, solo and bystander-connection regimes, payloads 10 B..1.5 MB, clients with nil and non-nil chain base) run on SQLite over a VFS shim that logs every I/O of the repository's own connections. At every (sampled when very many) write/truncate/sync/delete the process-crash image and a family of power-loss images (last synced content + none/all/prefix/single-drop/single-keep/random subsets of later writes, unsynced deletes applied or undone, torn sectors in thorough) are opened with the code under test: it must open, pass integrity_check and hold exactly the rows of the state before or after the in-flight request, or the acknowledged state once the request had returned.",
    note="Power loss is simulated from recorded I/O under a stated file-system model (fsync = per-file barrier that also makes earlier unlinks durable; unsynced writes land in any subset; -shm dropped). Trusted: the shim (about 350 lines of unsafe FFI, exercised under valgrind in the thorough tier when built), the shadow model, SQLite itself."),
 })
+checks.update({
+ "C06": dict(cat="exploration", tech="runtime monitoring: byte-equality oracle over generated payloads (lengths at page/overflow/64 KiB/1 MiB boundaries, byte classes, chunk partitions) through library, in-process HTTP with exact chunk delivery, real sockets and the real executable", ref="DESIGN.md §7 C06",
+   text="Versions and snapshots of chosen lengths, byte classes and chunkings are uploaded and read back through the same path (library; in-process service with chunk-exact payload streams; in-process HttpServer over TCP with chunked / segmented Content-Length bodies; the real executable with SQLite) and compared byte for byte with the regenerated upload, ids included; 16 MiB in quick, 100 MiB in thorough.",
+   note="Sizes between the scanned windows are sampled; Content-Encoding is outside the oracle."),
+ "C17": dict(cat="exploration", tech="runtime monitoring: process driver for the real executable (flags vs environment), HTTP over loopback, kill -9 and restart, oracles = allow-list table, exact urgency specification, stored history", ref="DESIGN.md §7 C17",
+   text="Seeded configurations (1-3 listen addresses over 127.0.0.1/[::1]/localhost, data dir, allow-list none/one/many unsorted, snapshot targets; each by flag or environment variable) are given to the real binary: every address must serve, listed clients served and strangers refused, X-Snapshot-Request must follow the configured versions target along a real history, after kill -9 and restart (configuration re-expressed in the other form) chain, payloads and snapshot are served as stored, and after ageing the stored snapshot the urgency must follow the configured days target.",
+   note="Configuration space sampled (12 quick / 144 thorough); only loopback exists. If a library API change keeps the harness from building, the previously built harness drives the freshly built executable."),
+})
 checks.update(json.load(open('/verif/tools/manifest_extra.json')) if __import__('os').path.exists('/verif/tools/manifest_extra.json') else {})
 
 m = {
